@@ -2395,8 +2395,14 @@ def coarsen(reduction, x, axes, trim_excess=False, **kwargs):
     }
 
     coarsen_dim = lambda dim, ax: int(dim // axes.get(ax, 1))
+    # only a coarsened axis can lose a (trailing, trimmed) block; the blocks of
+    # the other axes are mapped one to one, zero-length ones included
     chunks = tuple(
-        tuple(coarsen_dim(bd, i) for bd in bds if coarsen_dim(bd, i) > 0)
+        tuple(
+            coarsen_dim(bd, i)
+            for bd in bds
+            if i not in axes or coarsen_dim(bd, i) > 0
+        )
         for i, bds in enumerate(x.chunks)
     )
 
